@@ -76,19 +76,26 @@ class Stats:
         self.sat = 0
         self.unknown = 0
         self.t_obl = 0.0
+        self.cross = 0        # obligations re-decided by cvc5 (second opinion)
+        self.cross_agree = 0
+        self.cross_unknown = 0
+        self.cross_disagree = []
         self.wit = 0          # reachability / witness queries (satisfiable())
         self.wit_sat = 0
         self.shapes = set()
 
     def merge(self, o):
-        for k in ("paths", "feas_queries", "t_feas", "obl", "unsat", "sat", "unknown", "t_obl", "wit", "wit_sat"):
+        for k in ("paths", "feas_queries", "t_feas", "obl", "unsat", "sat", "unknown", "t_obl", "wit", "wit_sat", "cross", "cross_agree", "cross_unknown"):
             setattr(self, k, getattr(self, k) + getattr(o, k))
+        self.cross_disagree += o.cross_disagree
         self.shapes |= o.shapes
 
     def as_dict(self):
         return dict(paths=self.paths, feasibility_queries=self.feas_queries,
                     obligations=self.obl, unsat=self.unsat, sat=self.sat, unknown=self.unknown,
                     witness_queries=self.wit, witnesses_found=self.wit_sat,
+                    cvc5_cross_checked=self.cross, cvc5_agree=self.cross_agree, cvc5_no_answer=self.cross_unknown,
+                    cvc5_disagree=len(self.cross_disagree),
                     distinct_query_shapes=len(self.shapes),
                     solver_s=round(self.t_feas + self.t_obl, 3))
 
@@ -363,6 +370,8 @@ def prove(claim, assumptions=(), timeout_ms=60000, label=None):
     STATS.obl += 1
     STATS.t_obl += dt
     if label:
+        if CROSS[0] and label not in STATS.shapes and r != z3.unknown:
+            _cross_check(s, r, label)
         STATS.shapes.add(label)
     if r == z3.unsat:
         STATS.unsat += 1
@@ -372,6 +381,40 @@ def prove(claim, assumptions=(), timeout_ms=60000, label=None):
         return "sat", s.model()
     STATS.unknown += 1
     return "unknown", s.reason_unknown()
+
+
+CROSS = [False]       # thorough tier: the first obligation of every distinct shape is re-decided by cvc5
+
+
+def _cross_check(solver, z3_result, label):
+    import subprocess
+    import tempfile
+    import os
+    txt = "(set-logic ALL)\n" + solver.sexpr() + "\n(check-sat)\n"
+    if len(txt) > 2000000:
+        return
+    fd, path = tempfile.mkstemp(suffix=".smt2")
+    try:
+        with os.fdopen(fd, "w") as f:
+            f.write(txt)
+        try:
+            out = subprocess.run(["cvc5", "--tlimit=20000", path], capture_output=True, text=True, timeout=30).stdout.strip().splitlines()
+        except Exception:
+            out = []
+        ans = out[-1] if out else "unknown"
+        STATS.cross += 1
+        want = "unsat" if z3_result == z3.unsat else "sat"
+        if ans == want:
+            STATS.cross_agree += 1
+        elif ans in ("sat", "unsat"):
+            STATS.cross_disagree.append("%s: z3 %s, cvc5 %s" % (label, want, ans))
+        else:
+            STATS.cross_unknown += 1
+    finally:
+        try:
+            os.remove(path)
+        except OSError:
+            pass
 
 
 def satisfiable(cond, assumptions=(), timeout_ms=60000):
